@@ -117,6 +117,10 @@ MUTANTS = [
      [("src/pipecheck.rs", "err.kind() == io::ErrorKind::BrokenPipe => die_by_sigpipe()", "err.kind() == io::ErrorKind::ConnectionReset => die_by_sigpipe()")]),
     ("r18-detect-despite-request", "violations", "R18", "C14", "R14.1", "resolve_format detects first and only then looks at the request",
      [("src/detect.rs", "\tif let Some(format) = requested {\n\t\treturn Ok(format);\n\t}\n\tmatch detect_format(input)? {\n\t\tSome(format) => Ok(format),", "\tmatch detect_format(input)? {\n\t\tSome(format) => Ok(requested.unwrap_or(format)),")]),
+    ("r13-short-read-is-eof", "violations", "R13", "C09,C03", "R09.6", "short read taken for end of input (on the split_at_mut form of read)",
+     [("src/input.rs", "self.source_eof = source_size == 0;", "self.source_eof = source_size < buf.len();")]),
+    ("r16-newline-error-ignored", "violations", "R16", "C03", "R03.1", "document terminator's write error swallowed in transcode_value",
+     [("src/json.rs", "\t\tserde_json::to_writer(&mut self.writer, &value)?;\n\t\tself.finish_document()", "\t\tserde_json::to_writer(&mut self.writer, &value)?;\n\t\tlet _ = self.finish_document();\n\t\tOk(())")]),
     ("r9-result-ignored", "violations", "R9", "C09", "R09.2", "the first row's format is returned whatever its trial says",
      [("src/detect.rs", "\t\tif input_matches(input.borrow_mut())? {\n\t\t\treturn Ok(Some(format));\n\t\t}\n", "\t\tlet _ = input_matches(input.borrow_mut())?;\n\t\treturn Ok(Some(format));\n")]),
 ]
